@@ -321,6 +321,8 @@ class LibraryRun:
             warnings.simplefilter("always")
             self.H_tilde, self.U, self.U_inv = block_diagonalize(ham, **kwargs)
         self.warnings += [str(x.message) for x in w]
+        # symbolic-matrix input returns every element multiplied by the monomial of its order: substitute 1
+        self.symbols = list(kwargs.get("symbols") or []) if kwargs else []
 
     def block(self, series, i, j, n):
         import warnings
@@ -329,6 +331,8 @@ class LibraryRun:
             warnings.simplefilter("always")
             v = series[(i, j) + tuple(n)]
         self.warnings += [str(x.message) for x in w]
+        if self.symbols and hasattr(v, "subs"):
+            v = v.subs({s: 1 for s in self.symbols})
         return v
 
     def full(self, series, n, exact=False):
@@ -399,3 +403,26 @@ def absmat(A):
             out[idx] = abs(A[idx])
         return out
     return np.abs(A)
+
+
+def matrix_input(problem):
+    """The problem as ONE sympy Matrix that is a polynomial in perturbation symbols (+ kwargs incl. ``symbols``).
+
+    Returns None if some parameter does not occur (the library rejects symbols that are absent from the matrix)."""
+    import sympy
+
+    N = len(problem["assign"])
+    k = problem["n_params"]
+    syms = sympy.symbols("x_0:%d" % k, real=True)
+    den, ed = problem["den"], problem["eden"]
+    H = sympy.diag(*[sympy.Rational(e, ed) + sympy.I * sympy.Rational(im, ed) for e, im in zip(problem["energy"], problem["eimag"])])
+    for key, M in problem["terms"].items():
+        mono = sympy.Integer(1)
+        for s_, e_ in zip(syms, order_key(key)):
+            mono = mono * s_**e_
+        H = H + mono * sympy.Matrix(N, N, lambda i, j: sympy.Rational(M[i][j][0], den) + sympy.I * sympy.Rational(M[i][j][1], den))
+    if any(s_ not in H.free_symbols for s_ in syms):
+        return None
+    _, kwargs = library_input(problem)
+    kwargs["symbols"] = list(syms)
+    return sympy.Matrix(H), kwargs
